@@ -23,7 +23,10 @@ type c07Case struct {
 	Prior [][]string `json:"prior,omitempty"`
 	// the text typed by "word" / "char" (default "foo bar" / "x"): multi-byte and double-width
 	// characters in half of the random cases (states are compared as text, positions are characters)
-	Word string `json:"word,omitempty"`
+	// the application has removed every history source (Shell.History.Delete()): the line being
+	// typed is edited, undone and redone all the same
+	NoHist bool   `json:"nohist,omitempty"`
+	Word   string `json:"word,omitempty"`
 	Char string `json:"char,omitempty"`
 }
 
@@ -112,6 +115,7 @@ func c07Gen(r *rand.Rand, tier string, idx int) any {
 	if c.Mode == "vi" {
 		c.N = 1
 	}
+	c.NoHist = !c.Walk && r.Intn(8) == 0
 	if r.Intn(2) == 0 {
 		c.Word, c.Char = pick(r, c07Words), pick(r, c07Chars)
 		c.Inputrc += "set convert-meta off\nset input-meta on\nset output-meta on\n" // the usual UTF-8 settings
@@ -153,6 +157,9 @@ func c07Run(env *fw.Env, raw json.RawMessage) fw.Outcome {
 	}
 	cfg := c.cfg()
 	cfg.Setup = func(s *sess.Session) {
+		if c.NoHist {
+			s.Sh.History.Delete()
+		}
 		if c.Mode == "emacs" {
 			s.Sh.Config.Bind("emacs", "\x18\x12", "redo", false)
 		}
@@ -216,7 +223,7 @@ func c07Run(env *fw.Env, raw json.RawMessage) fw.Outcome {
 		exit = steps("\r")
 	}
 	res := s.Call(plan, exit)
-	ctx := fmt.Sprintf("mode=%s earlier-calls=%v ops=%v n=%d word=%q char=%q", c.Mode, c.Prior, c.Ops, c.N, c.Word, c.Char)
+	ctx := fmt.Sprintf("mode=%s no-history-source=%v earlier-calls=%v ops=%v n=%d word=%q char=%q", c.Mode, c.NoHist, c.Prior, c.Ops, c.N, c.Word, c.Char)
 	if !stdFailures(&o, res, ctx) {
 		o.O.Sample = map[string]any{"ctx": ctx}
 		return o.O
@@ -425,6 +432,9 @@ func c07Run(env *fw.Env, raw json.RawMessage) fw.Outcome {
 	}
 	if c.Word != "" {
 		o.Add("cases_typing_multibyte_text", 1)
+	}
+	if c.NoHist {
+		o.Add("cases_without_any_history_source", 1)
 	}
 	if hasEdit && hasUndo {
 		o.Cover(c.Mode + "|" + strings.Join(c.Ops, ","))
